@@ -18,7 +18,8 @@ RULE = (
     "alphabet (float edges, angles, ints, bools, awkward strings); ALL single-field deviations from the default "
     "(quick) and ALL pairwise deviations (thorough) are written with create_toml and read with config_from_toml; unit "
     "clause: every dimensional field x every unit spelling x {Quantity, 'v unit' string, float, int} x value alphabet; "
-    "incompatible units, inverted/equal/partial frequency bands and the month alphabets. Distinct by (variant, field, "
+    "incompatible units; call histories in which ONE literal quantity string is presented to a field it fits and to a field of "
+    "another dimension in both orders (all field x unit spelling x other-dimension pairs); inverted/equal/partial frequency bands and the month alphabets. Distinct by (variant, field, "
     "value index) / (field, unit, form) / (band case) / (month spelling)."
 )
 ASSUMPTIONS = [
@@ -245,6 +246,36 @@ def judge_incompatible(path, unit, form):
     return [("incompatible_unit_rejected", f"{path}={arg!r} rejected", f"stored {getattr(m, leaf)!r}")]
 
 
+def _try(path, arg):
+    cls, leaf = model_for(path)
+    extra = {"high_frequency": 1e300} if leaf == "low_frequency" else ({"low_frequency": -1e300} if leaf == "high_frequency" else {})
+    try:
+        return True, getattr(cls(**{leaf: arg}, **extra), leaf)
+    except Exception as ex:
+        return False, f"{type(ex).__name__}"
+
+
+def judge_unit_history(path_a, canon_a, unit, path_b, order):
+    """the SAME literal string presented to a field it fits (A) and to a field of another dimension (B), in either order,
+    then to A again: acceptance and the stored value may not depend on what was parsed before (E2, depth 3)"""
+    from astropy import units as u
+
+    s = f"7.25 {unit}"
+    exp = (7.25 * u.Unit(unit)).to_value(u.Unit(canon_a))
+    out = []
+    seq = [("A", path_a), ("B", path_b), ("A", path_a)] if order == "AB" else [("B", path_b), ("A", path_a), ("B", path_b)]
+    for step, (who, path) in enumerate(seq):
+        ok, got = _try(path, s)
+        if who == "A":
+            if not ok:
+                out.append(("unit_accepted_after_history", f"{path}={s!r} stored as {exp!r} (step {step} of {order})", got))
+            elif not (isinstance(got, float) and (got == exp or int(ulps(got, exp)) <= 1)):
+                out.append(("unit_value_after_history", exp, got))
+        elif ok:
+            out.append(("incompatible_unit_rejected_after_history", f"{path}={s!r} rejected (step {step} of {order}, after the same string was parsed for {path_a})", f"stored {got!r}"))
+    return out
+
+
 def judge_numeric_string(path):
     cls, leaf = model_for(path)
     extra = {"high_frequency": 1e300} if leaf == "low_frequency" else ({"low_frequency": -1e300} if leaf == "high_frequency" else {})
@@ -435,6 +466,20 @@ def run(ctx):
                 for c, e, o in judge_numeric_string(p):
                     ctx.violation(c, {"kind": "numstr", "path": p}, e, o)
         ctx.cov["unit_cases"] = n_u
+        # call histories: one literal string, two fields of different dimension, both orders
+        n_h = 0
+        for canon, (paths, units, bad) in UNITS.items():
+            for canon_b, (paths_b, _, _) in UNITS.items():
+                if canon_b == canon:
+                    continue
+                for p in paths:
+                    for unit in units:
+                        for order in ("AB", "BA"):
+                            ctx.tick(1, ("unit_hist", canon, canon_b, unit, order))
+                            n_h += 1
+                            for c, e, o in judge_unit_history(p, canon, unit, paths_b[0], order):
+                                ctx.violation(c, {"kind": "unit_hist", "a": p, "canon": canon, "unit": unit, "b": paths_b[0], "order": order}, e, o)
+        ctx.cov["unit_string_reuse_histories"] = n_h
         ctx.sample({"kind": "unit", "path": "detector.initial_position.latitude", "arg": "0.3333333333333333 arcmin"})
         for i in range(len(BANDS)):
             ctx.tick(1, ("band", i))
@@ -475,6 +520,8 @@ def replay(case):
         return judge_unit(case["path"], case["canon"], case["unit"], case["form"], case["v"])
     if k == "incompat":
         return judge_incompatible(case["path"], case["unit"], case["form"])
+    if k == "unit_hist":
+        return judge_unit_history(case["a"], case["canon"], case["unit"], case["b"], case["order"])
     if k == "numstr":
         return judge_numeric_string(case["path"])
     if k == "band":
